@@ -18,7 +18,9 @@ TIERS = {
     "C16": {"quick": (30000, 300, 2), "thorough": (1500000, 3300, 3)},
     "C18": {"quick": (6000, 300, 0), "thorough": (600000, 3300, 0)},
 }
-MAX_SHRINK_PER_KEY = 6
+MAX_SHRINK_PER_KEY = 3
+MAX_SHRINK_TOTAL = 10
+MAX_SHRINK_WALL = 90.0
 
 
 def _assert_repo():
@@ -75,7 +77,14 @@ def cmd_check(prop, tier, args):
     unshrunk = 0
     per_key = {}
     shrink_execs = 0
+    t_shrink = _real_time.monotonic()
+    n_shrunk = 0
     for s in b.viol_runs:
+        # one new violation decides the verdict; the rest is diagnosis, so it is bounded.  (While every
+        # minimised violation so far is a *known* finding the loop goes on: an unlisted one must not hide.)
+        if new_violations and (n_shrunk >= MAX_SHRINK_TOTAL or _real_time.monotonic() - t_shrink > MAX_SHRINK_WALL):
+            unshrunk += 1
+            continue
         keys = []
         for v in s["violations"]:
             if v["key"] not in keys:
@@ -86,8 +95,15 @@ def cmd_check(prop, tier, args):
                 unshrunk += 1
                 continue
             per_key[key] += 1
+            n_shrunk += 1
+            seq = None
             try:
-                mh, mr, n = minimise(mod, s["history"], key)
+                kind, what_rep = kernel.reproduce(mod, prop, tier, s, key)
+                if kind == "single":
+                    mh, mr, n = minimise(mod, what_rep, key)
+                else:
+                    seq = what_rep
+                    mh, mr, n = seq[-1], kernel.run_sequence(mod, seq), len(seq)
             except HarnessError as e:
                 print("HARNESS-ERROR %s (run_seed=%s)" % (e, s["seed"]))
                 return EXIT_HARNESS
@@ -102,7 +118,9 @@ def cmd_check(prop, tier, args):
                 continue
             if any(sig == x[0] for x in new_violations):
                 continue
-            path = write_replay(prop, mh, mr, key, sig, what)
+            if seq is not None:
+                sig += " | after %d earlier run(s) in the same process" % (len(seq) - 1)
+            path = write_replay(prop, mh, mr, key, sig, what, sequence=seq)
             # the minimised history must reproduce in a fresh interpreter before it is reported
             rc, out = replay_in_fresh_process(prop, path)
             if rc != EXIT_VIOLATION or ("digest=%s" % mr["digest"]) not in out:
@@ -198,6 +216,8 @@ def cmd_replay(prop, path, args):
     with open(path) as f:
         body = json.load(f)
     hist = body["history"] if "history" in body else body
+    for h in (body.get("sequence") or [])[:-1]:
+        mod.replay(h)           # earlier runs of the same process, in order
     res = mod.replay(hist)
     key = body.get("symptom_key")
     hit = [v for v in res["violations"] if key is None or v["key"] == key]
